@@ -1,6 +1,7 @@
 """Per-property check definitions (workloads, counts, minimum observations)."""
 import json
 import os
+import re
 
 from . import core
 from .core import Check, ensure_monitor, run_workers, NCPU
@@ -378,6 +379,231 @@ def c09(tier, seed):
 CHECKS.update({"C05": c05, "C08": c08, "C09": c09})
 
 
+# ----------------------------------------------------------------------------- UCI sessions on the real binary
+
+def _run_sessions(exe, sessions, env=None, wrapper=None, jobs=NCPU, go_timeout=120, slow=1.0):
+    import concurrent.futures as cf
+    from . import session as S
+    with cf.ThreadPoolExecutor(jobs) as ex:
+        return list(ex.map(lambda s: S.run_session(exe, s, env, wrapper, go_timeout, slow), sessions))
+
+
+def _session_problems(c, res, memory_verdict=True):
+    """Route everything a finished session shows through the check's violation table (C10 keys, DESIGN.md A.5)."""
+    ex = {"tag": res["tag"], "cmds": [x[:160] + ("..." if len(x) > 160 else "") for x in res["cmds"][-12:]], "n_cmds": len(res["cmds"])}
+    reps = core.parse_sanitizer(res["stderr"])
+    seen = set()
+    fatal = False
+    for r in reps:
+        c.counters["sanitizer:%s:%s" % (r["tool"], r["kind"])] = c.counters.get("sanitizer:%s:%s" % (r["tool"], r["kind"]), 0) + 1
+        if r["tool"] == "asan":
+            key = "asan:%s@%s" % (r["kind"], r["frame"])
+            fatal = True
+        elif r["tool"] == "bound":
+            key = "VERIF-BOUND:%s" % r["where"]
+            fatal = True
+        elif r["kind"] in core.UBSAN_MEMORY_KINDS:
+            key = "ubsan:%s@%s:%s" % (r["kind"], r["where"], r["frame"])
+        else:
+            continue
+        if key in seen:
+            continue
+        seen.add(key)
+        if memory_verdict:
+            c.add_violation(key, dict(ex, report=r["text"]))
+    rc = res["rc"]
+    if res.get("aborted"):
+        # not a memory verdict: the session stalled (lost stop, hang); C05/C06/C09 judge that
+        c.inconclusive.append("session could not be completed (%s): %s" % (",".join(res["problems"]), res["tag"]))
+        return
+    if memory_verdict and not fatal:
+        if res["hung_on_quit"]:
+            c.add_violation("hang:on-quit", ex)
+        elif rc is not None and rc != 0:
+            key = "signal:%d" % (-rc) if rc < 0 else "exit:%d" % rc
+            c.add_violation(key, dict(ex, stderr_tail=res["stderr"][-500:]))
+        for pbl in res["problems"]:
+            if rc == 0:
+                c.add_violation("session:" + pbl, ex)
+
+
+def c10(tier, seed):
+    q = tier == "quick"
+    from . import session as S
+    d = core.ensure_engine("asan")
+    exe = os.path.join(d, "chessplusplus")
+    plan = [("longgame", 18 if q else 90), ("deepdepth", 28 if q else 112), ("manymoves", 10 if q else 60),
+            ("multigame", 60 if q else 1200), ("forcing", 12 if q else 48)]
+    sessions = []
+    for kind, n in plan:
+        sessions += S.gen_sessions(kind, seed, n)
+    c = Check("C10", tier, seed)
+    results = _run_sessions(exe, sessions, go_timeout=60)
+    ncmd = 0
+    for res in results:
+        _session_problems(c, res)
+        kind = res["tag"].split(":")[0]
+        c.counters["sessions:" + kind] = c.counters.get("sessions:" + kind, 0) + 1
+        c.counters["wall-seconds:" + kind] = round(c.counters.get("wall-seconds:" + kind, 0) + res["wall"], 1)
+        c.counters["go-commands"] = c.counters.get("go-commands", 0) + len(res["gos"])
+        ncmd += len(res["cmds"])
+        if res["tag"].startswith("longgame:"):
+            n = int(res["tag"].split(":")[1])
+            c.counters["longgame-plies>=800"] = c.counters.get("longgame-plies>=800", 0) + (1 if n >= 800 else 0)
+        c.add_sample({"tag": res["tag"], "first_commands": [x[:100] for x in res["cmds"][:6]], "n_commands": len(res["cmds"]),
+                      "exit": res["rc"]}, cap=8)
+    c.evaluations = ncmd
+    c.distinct = len(set(json.dumps(s["steps"]) for s in sessions))
+    # memcheck on shortened sessions (uninitialised values, invalid accesses the red zones miss)
+    dv = core.ensure_engine("vg")
+    vexe = os.path.join(dv, "chessplusplus")
+    vs = S.gen_sessions("multigame", seed + 77, 4 if q else 40) + S.gen_sessions("manymoves", seed + 77, 2 if q else 10) + \
+        S.gen_sessions("deepdepth", seed + 78, 2 if q else 16)
+    for s_ in vs:
+        # keep them short: valgrind is 20-50x slower
+        s_["steps"] = [st for st in s_["steps"] if not (st[0] == "go" and ("infinite" in st[1] or "depth 30" in st[1]))][:40] + [["send", "quit"]]
+    wrap = ["valgrind", "--tool=memcheck", "--error-exitcode=0", "--track-origins=yes", "-q", "--num-callers=12"]
+    vres = _run_sessions(vexe, vs, env=core.base_env(), wrapper=wrap, go_timeout=900, slow=20.0)
+    for res in vres:
+        c.counters["sessions:memcheck"] = c.counters.get("sessions:memcheck", 0) + 1
+        c.counters["wall-seconds:memcheck"] = round(c.counters.get("wall-seconds:memcheck", 0) + res["wall"], 1)
+        for blk in re.split(r"\n(?===\d+== \S)", res["stderr"]):
+            m = re.search(r"==\d+== (Conditional jump or move depends on uninitialised|Use of uninitialised value|Invalid (read|write)|"
+                          r"Syscall param .* uninitialised|Invalid free|Mismatched free)", blk)
+            if not m:
+                continue
+            fr = "?"
+            for ln in blk.splitlines():
+                mm = re.search(r"(?:at|by) 0x[0-9A-F]+: (engine::[^\(]+)", ln)
+                if mm:
+                    fr = re.sub(r"<.*>", "", mm.group(1)).strip()
+                    break
+            kind = "uninitialised" if "ninitialised" in m.group(1) else m.group(1).lower().replace(" ", "-")
+            c.add_violation("memcheck:%s@%s" % (kind, fr), {"tag": res["tag"], "report": blk[:600], "cmds": res["cmds"][-8:]})
+        if res["rc"] not in (0, None) or res["hung_on_quit"]:
+            c.inconclusive.append("memcheck session did not finish cleanly: %s rc=%s" % (res["tag"], res["rc"]))
+    c.rule = ("well-formed UCI sessions (oracle-generated legal games) on the ASan+UBSan binary with table-bound hooks: games of "
+              "700..1500 plies via `position` and via `moves`, depth limits 39..100000 on cheap positions, 218-move and ten-of-a-kind "
+              "positions with perft/staticeval/searchmoves(all), forcing lines near the stack depth, multi-game sessions with "
+              "ucinewgame/setoption/every go argument; plus shortened sessions under valgrind memcheck; verdict: no ASan report, no "
+              "memory-kind UBSan report, no VERIF-BOUND, no memcheck error, exit 0; evaluations = commands sent; non-trivial = distinct sessions")
+    c.assumptions = ["sessions are well-formed per DESIGN.md Appendix A.4 (quit only after bestmove, go only with a legal move)",
+                     "UBSan kinds outside the statement (shift, signed overflow, float cast) are recorded, not judged"]
+    c.require("sessions:longgame", 18)
+    c.require("longgame-plies>=800", 8)
+    c.require("sessions:deepdepth", 28)
+    c.require("sessions:multigame", 60)
+    c.require("sessions:memcheck", 6)
+    c.require("go-commands", 300)
+    return c.finish()
+
+
+CHECKS["C10"] = c10
+
+
+def _tsan_blocks_for_stop(err):
+    """Split a TSan log into report blocks and classify: does the block concern stop signalling?"""
+    flag = None
+    m = re.search(r"VERIF-STOPFLAG (0x[0-9a-f]+)", err)
+    if m:
+        flag = int(m.group(1), 16)
+    stop_blocks, other = [], 0
+    for blk in core.parse_tsan(err):
+        addrs = [int(a, 16) for a in re.findall(r"of size \d+ at (0x[0-9a-f]+)", blk)]
+        about_stop = (flag is not None and flag in addrs) or \
+            re.search(r"engine::Search::stop\(|engine::Uci::stop_command|engine::Uci::quit_command", blk) is not None
+        if about_stop:
+            stop_blocks.append(blk)
+        else:
+            other += 1
+    return stop_blocks, other
+
+
+def _race_key(blk):
+    frames = []
+    for part in re.split(r"\n\s*\n", blk):
+        m = re.search(r"#0 (\S.*?) (/|\(|<null>)", part)
+        if m and ("Write of" in part or "Read of" in part or "Previous" in part or "Atomic" in part):
+            fn = re.sub(r"<.*?>", "", m.group(1))
+            fn = re.sub(r"\(.*$", "", fn).strip()
+            frames.append(fn)
+    frames = sorted(set(frames))[:2]
+    kind = "data-race"
+    mk = re.search(r"ThreadSanitizer: ([a-z\- ]+)", blk)
+    if mk:
+        kind = mk.group(1).strip().replace(" ", "-")
+    return "race:%s:%s" % (kind, "/".join(frames) or "?")
+
+
+def c06(tier, seed):
+    q = tier == "quick"
+    from . import session as S
+    # (a) schedule enumeration
+    exe = ensure_monitor("asan", "sched_monitor")
+    argvs = [[exe, "--worker", str(i), "--workers", str(W), "--seed", str(sd), "--nodes", str(20 if q else 400)]
+             for i, sd in enumerate(_seeds(seed))]
+    c = Check("C06", tier, seed, "fault_enumeration")
+    for w in run_workers(argvs, 1500):
+        c.absorb(w)
+    # (b) race detection: one go per TSan process, unsynchronised jitter inside
+    texe = ensure_monitor("tsan", "uci_main")
+    sessions = S.gen_sessions("stoprace", seed, 48 if q else 600)
+    import concurrent.futures as cf
+
+    def one(idx_s):
+        idx, s_ = idx_s
+        env = core.base_env({"CHESSPP_VERIF_MODE": "jitter", "CHESSPP_VERIF_SEED": str(seed * 977 + idx),
+                             "TSAN_OPTIONS": "halt_on_error=0:report_signal_unsafe=0:history_size=4"})
+        return S.run_session(texe, s_, env, None, 90, 3.0)
+    with cf.ThreadPoolExecutor(NCPU) as ex:
+        results = list(ex.map(one, enumerate(sessions)))
+    lat = []
+    for res in results:
+        c.evaluations += 1
+        c.counters["tsan-sessions"] = c.counters.get("tsan-sessions", 0) + 1
+        blocks, other = _tsan_blocks_for_stop(res["stderr"])
+        c.counters["tsan-reports-about-stop-signalling"] = c.counters.get("tsan-reports-about-stop-signalling", 0) + len(blocks)
+        c.counters["tsan-reports-outside-C06"] = c.counters.get("tsan-reports-outside-C06", 0) + other
+        if "VERIF-STOPFLAG" in res["stderr"]:
+            c.counters["tsan-sessions-with-stop-flag-address"] = c.counters.get("tsan-sessions-with-stop-flag-address", 0) + 1
+        for blk in blocks:
+            c.add_violation(_race_key(blk), {"tag": res["tag"], "cmds": res["cmds"], "report": blk[:1500]})
+        for g in res["gos"]:
+            if not g["answered"]:
+                c.add_violation("lost-stop@uci:" + res["tag"].split(":")[1], {"tag": res["tag"], "cmds": res["cmds"],
+                                                                                "note": "no bestmove within the watchdog after stop"})
+            elif g["stop_latency"] is not None:
+                lat.append(g["stop_latency"])
+            if g["readyok_during"] is False:
+                c.add_violation("no-readyok@uci-running-search", {"tag": res["tag"], "cmds": res["cmds"]})
+            if g["readyok_during"]:
+                c.counters["readyok-while-search-running"] = c.counters.get("readyok-while-search-running", 0) + 1
+        if res["all_bestmoves"] > len(res["gos"]):
+            c.add_violation("second-bestmove@uci", {"tag": res["tag"], "cmds": res["cmds"]})
+        c.add_sample({"tsan_session": res["tag"], "cmds": res["cmds"], "stop_latency_s": [round(g["stop_latency"] or -1, 3) for g in res["gos"]]}, cap=10)
+    if lat:
+        c.extra["stop_latency_seconds_under_tsan"] = {"max": round(max(lat), 3), "median": round(sorted(lat)[len(lat) // 2], 3), "n": len(lat)}
+    c.distinct = c.distinct + len(sessions)
+    c.rule = ("(a) in-process Uci::loop with the search thread PARKED through the schedule hook at THREAD_START, GO_ENTRY, GO_INIT_DONE, "
+              "GO_RESET_DONE, ITER_BEGIN(1..6), ITER_END(1..4), the k-th node visit (k=1..200, powers of two to 2^17, random), BEFORE_BESTMOVE, "
+              "AFTER_BESTMOVE; `stop` is sent and executed (STOP_DONE) while parked; after release the node visits until the answer must "
+              "stay <= 50,000 and exactly one bestmove must appear; isready must be answered while the search is parked; "
+              "(b) ThreadSanitizer build, one go per process, random stop delays 0..200 ms and unsynchronised jitter in the search thread: "
+              "reports whose racy address is the stop flag or whose stacks contain Search::stop/Uci::stop_command are violations; "
+              "non-trivial = distinct (position, go, park point) scenarios + TSan sessions")
+    c.assumptions = ["interleavings are controlled at hook granularity; between two hook points only TSan's happens-before analysis applies",
+                     "promptness is decided in node visits, the 60 s watchdog only ends a scenario"]
+    for pt in ["THREAD_START", "GO_ENTRY", "GO_INIT_DONE", "GO_RESET_DONE", "BEFORE_BESTMOVE", "AFTER_BESTMOVE", "ITER_BEGIN(d1)", "NODE(k<=200)",
+               "NODE(k>200)"]:
+        c.require("parked:" + pt, 10)
+    c.require("isready-while-search-parked", 100)
+    c.require("tsan-sessions-with-stop-flag-address", 40)
+    return c.finish()
+
+
+CHECKS["C06"] = c06
+
+
 MONITORS = {
     "api_monitor": ("asan", "rel"),
     "tables_monitor": ("asan", "rel"),
@@ -386,6 +612,9 @@ MONITORS = {
     "eval_monitor": ("asan", "rel"),
     "book_monitor": ("asan", "rel"),
     "search_monitor": ("asan", "rel"),
+    "session_tool": ("rel",),
+    "sched_monitor": ("asan",),
+    "uci_main": ("tsan",),
 }
 
 
